@@ -136,7 +136,7 @@ pub fn gen_cfg_sorter(rng: &mut Rng) -> SortCfg {
         stable: rng.chance(2, 3),
         parallel: rng.chance(1, 4),
         codec: if rng.chance(1, 6) { *rng.pick(&CODECS) } else { CompressionType::None },
-        levels: *rng.pick(&[0u8, 0, 1, 2]),
+        levels: *rng.pick(&[0u8, 0, 1, 2, 0, 1, 2, 3, 0, 1, 2, 0, 1, 2, 3, 0, 1, 2, 254, 255]),
         block_size: *rng.pick(&[32usize, 64, 200, 1024, 8192]),
     }
 }
@@ -185,6 +185,24 @@ pub fn generate<W: Write>(c: &mut Cases<W>, rng: &mut Rng, thorough: bool, which
             }).collect();
             c.bump("no_spill_cases", 1);
             emit_sorter_case(c, which, &big, &ins2);
+        }
+        if which != "C08" && i % 10 == 7 {
+            // "join with a separator" as merge function (it sees the order of the values and empty values, which a
+            // concatenation does not): many entries on the empty key and one other key, empty values among them,
+            // with and without spills; stable algorithm (the order is part of the result)
+            let lw = SortCfg { threshold: if i % 20 == 7 { 1 << 16 } else { 96 + (i % 7) * 40 }, realloc: i % 3 != 0, init_cap: 64, max_chunks: 2 + i % 3, stable: true, parallel: (i / 20) % 3 == 2, ..cfg.clone() };
+            let other = gen_key(rng, 5);
+            let m = rng.range(25, 90) as usize;
+            let ins3: Vec<(Vec<u8>, Vec<u8>)> = (0..m).map(|j| {
+                let k = if rng.chance(2, 3) { Vec::new() } else { other.clone() };
+                let v = if rng.chance(1, 3) { Vec::new() } else { vec![j as u8, 0x30 | (j % 5) as u8] };
+                (k, v)
+            }).collect();
+            c.bump("last_wins_cases", 1);
+            crate::c_merge::LAST_WINS.with(|l| l.set(true));
+            c.pending_tag = Some("mfkind join".to_string());
+            emit_sorter_case(c, which, &lw, &ins3);
+            crate::c_merge::LAST_WINS.with(|l| l.set(false));
         }
         if which == "C08" && i % 3 == 0 {
             // the same inserts with a chunk creator that fails one of its first calls, the caller going on
@@ -283,6 +301,9 @@ fn emit_sorter_case_cr<W: Write>(c: &mut Cases<W>, which: &str, cfg: &SortCfg, i
         cfg.threshold, cfg.realloc as u8, cfg.max_chunks, cfg.init_cap, cfg.stable as u8, cfg.parallel as u8
     ));
     c.line(&format!("small {}", all_small as u8));
+    if let Some(t) = c.pending_tag.take() {
+        c.line(&t);
+    }
     if let Some(j) = crfail {
         c.line(&format!("crfail {}", j));
         c.bump("transient_creator_failure", 1);
